@@ -2891,7 +2891,8 @@ class BscIoctl:
     result: str
 
     def __str__(self):
-        params = IOC_REQUEST_PARAMS[self.request & 0xf0000000]
+        direction = self.request & 0xe0000000  # Bit 28 belongs to the length (IOCPARM_MASK is 0x1fff).
+        params = IOC_REQUEST_PARAMS.get(direction, hex(direction))
         group = chr((self.request >> 8) & 0xff)
         number = self.request & 0xff
         length = (self.request >> 16) & 0x1fff
